@@ -120,7 +120,7 @@ PROPS['C01'] = {
 PROPS['C03'] = {
     'group': 'plss', 'level': 'proof', 'build_timeout': 2400,
     'explanation': 'PARTIAL. Proved for all texts/settings: every successful parse stages at least one tract component (the copy_all stand-in) and yields exactly one tract per section named, '
-                   'illegal default directions raise DefaultNSError/DefaultEWError. Totality of the regex-driven steps for EVERY text (C03_sec_step_total, C03_lot_step_total, C03_sec_unpacker_total, '
+                   'illegal default directions raise DefaultNSError/DefaultEWError. Totality of the regex-driven steps for EVERY text (C03_sec_step_total, C03_lot_step_total, C03_sec_unpacker_total, C03_lot_unpacker_total, '
                    'C03_unpack_twprge_total): the number group of the section/lot list patterns is set on every path and holds a non-empty string of decimal digits that int() accepts, so no TypeError/ValueError; '
                    'SecUnpacker raises nothing; unpacking a twprge_regex match raises only the documented default-direction errors (no TypeError/IndexError/KeyError) -- all read off the regenerated patterns by '
                    'the verified static analyses of Engine/RegexStatic.v (always_set, always_any, group_body, ms_minw, ms_chars). Not proved: the remaining Raise sites (marker walk, lot acreages, tract '
